@@ -24,6 +24,7 @@ use tokio::sync::broadcast;
 use crate::fixtures::{fix, key, topic, Event, Msg, E, L};
 use crate::pipe::{pipe, push, Faults, Handle, Io, Item};
 use crate::sched::{EnvExec, Pick};
+use crate::util::{brief, Collector};
 
 const N_SESSIONS: usize = 4;
 /// Topic of each session: three on T1, one on T2.
@@ -470,7 +471,7 @@ fn judge(obs: &Obs) -> Verdict {
 
 pub fn run(mut rep: Report) -> i32 {
     let thorough = rep.thorough();
-    let (max_len, max_dev, sub_modes) = if thorough { (4usize, 2usize, 3usize) } else { (3, 1, 3) };
+    let (max_len, max_dev, sub_modes) = if thorough { (4usize, 2usize, 3usize) } else { (3, 2, 3) };
     rep.rule = "execution = (canonical action script, where the consumer subscribed, schedule); non-trivial when some operation reached the node from at least two sources (two remotes, the same remote twice, or remote + local publish) and at least one forward to another session's remote was observed".into();
     rep.assume("scripts are canonical up to renaming of the three same-topic sessions and of the two operations (first use order); the manager keys sessions by id in hash maps and does not order them");
     rep.assume("nothing is addressed to a session after its Close action; a scripted remote closes its stream when it receives a Close frame");
@@ -490,7 +491,7 @@ pub fn run(mut rep: Report) -> i32 {
         wall: std::time::Duration::from_secs(if thorough { 540 } else { 30 }),
         threads: rep.args.threads,
     };
-    let mut first: BTreeMap<String, (Vec<u32>, Obs)> = BTreeMap::new();
+    let mut coll: Collector<Obs> = Collector::new();
     let mut total_forwards = 0u64;
     let n_scripts = all_scripts.len();
     let st = dfs_par(
@@ -522,29 +523,34 @@ pub fn run(mut rep: Report) -> i32 {
                 }
             }
             for (key, detail) in verdict.violations {
-                let what = format!(
-                    "script [{}], consumer subscribed {}, {} deviation(s): {}. I/O per session: {:?}; consumer saw {:?}; session ends {:?}",
-                    script.iter().map(|a| a.text()).collect::<Vec<_>>().join("; "),
-                    ["before the sessions were created", "after two sessions were created", "after all sessions were created"][sub],
-                    ch.deviations(), detail, obs.io, obs.consumer_ops, obs.ends
-                );
-                let replay = json!({"part": "live", "script_index": si, "script": format!("{script:?}"), "subscribe_mode": sub, "vector": ch.vector(), "choices": ch.describe()});
-                first.entry(key.clone()).or_insert_with(|| (ch.vector(), obs.clone()));
-                rep.violation(key, what, replay);
+                let vector = ch.vector();
+                let rank = (ch.deviations() as u64, script.len() as u64, vector.clone());
+                coll.add(key, rank, &obs, || {
+                    (
+                        format!(
+                            "script [{}], consumer subscribed {}, {} deviation(s) [{}]: {}. I/O per session: {:?}; OperationReceived emitted per session: {:?}; consumer saw (session, op) {:?}; session ends {:?}",
+                            script.iter().map(|a| a.text()).collect::<Vec<_>>().join("; "),
+                            ["before the sessions were created", "after two sessions were created", "after all sessions were created"][sub],
+                            ch.deviations(), brief(ch), detail, obs.io, obs.accepted, obs.consumer_ops, obs.ends
+                        ),
+                        json!({"part": "live", "script_index": si, "script": format!("{script:?}"), "subscribe_mode": sub, "vector": vector, "choices": ch.describe()}),
+                    )
+                });
             }
         },
     );
-    for (key, (vector, obs)) in first {
+    for (key, e) in &coll.map {
         for _ in 0..2 {
-            let ch = Chooser::new(vector.clone());
+            let ch = Chooser::new(e.rank.2.clone());
             let si = ch.choose_free(n_scripts, "script");
             let sub = ch.choose_free(sub_modes, "subscribe");
             let again = run_one(&all_scripts[si], sub, &ch);
-            if again != obs {
+            if again != e.obs {
                 rep.machinery_error(format!("C23: witness of {key} is not reproducible (uncaptured nondeterminism)"));
             }
         }
     }
+    coll.flush(&mut rep);
     rep.absorb_dfs("live", &st, max_dev);
     rep.set("forwards_observed", json!(total_forwards));
     rep.finish()
